@@ -152,6 +152,32 @@ def run(ctx, prop):
                         agents.append(newcomer)
                         for a in agents[:-1]:
                             outs(a)
+                    if required == 2:
+                        # a role that is VACANT while the world is re-labelled: the attackers leave one after the other, a Defender
+                        # keeps the game alive and asks for the reset alone; an Attacker who joins afterwards gets the start position
+                        # and the goal description of the CURRENT labelling (twice in a row)
+                        keeper = ("10.6.9.1", 6901)
+                        gone = agents.pop(0)
+                        d.send(gone, msg("QuitGame")); d.settle(); outs(gone)
+                        d.connect(keeper); d.settle()
+                        d.send(keeper, nsgenv.join("keeper", "Defender")); d.settle()
+                        ok = [x for x in outs(keeper) if "CREATED" in x.get("status", "")]
+                        for a in agents:
+                            outs(a)
+                        if len(ok) != 1:
+                            ctx.violations.append({"key": "a defender cannot take a free place under dynamic addresses", "what": "the Defender's join into a free place was not confirmed", "replay": replay})
+                        else:
+                            for rnd in range(2):
+                                last = agents.pop(0)
+                                d.send(last, msg("QuitGame")); d.settle(); outs(last)
+                                d.send(keeper, msg("ResetGame")); d.settle()      # consensus of the only agent: the world is re-labelled
+                                newcomer = join(new_agent(), f"v{rnd}", "join into a vacant role")
+                                stats["joins_into_a_role_vacant_during_relabelling"] = stats.get("joins_into_a_role_vacant_during_relabelling", 0) + 1
+                                expect_created(newcomer, f"join of an Attacker whose role was vacant during re-labelling {rnd + 1}")
+                                o = outs(keeper)
+                                if len(o) != 1 or "RESET_DONE" not in o[0].get("status", ""):
+                                    ctx.violations.append({"key": "reset of the remaining role not confirmed", "what": f"the Defender's ResetGame was answered with {[x.get('status') for x in o]} once the required players were back", "replay": replay})
+                                agents.append(newcomer)
                     for e in d.task_errors:
                         ctx.violations.append({"key": "task died in the dynamic-address probe", "what": f"a coordinator task died: {e}", "replay": replay})
                 except Exception as e:
